@@ -336,6 +336,14 @@ def rule_b(ctx):
     ctx.instance(R + ".writes", n_write)
     ctx.floor(R + ".writes", 2)
     fb = m.func(IMR, "imread_from_bytes")
+    # named contradiction: a squeeze without an axis drops every singleton axis of the decoded array, the spatial ones of a one-pixel-wide
+    # or one-pixel-high image included -- only the trailing channel axis may be dropped
+    for c_ in ast.walk(fb.node):
+        if isinstance(c_, ast.Call) and (norm(c_.func) == "np.squeeze" or (isinstance(c_.func, ast.Attribute) and c_.func.attr == "squeeze")):
+            has_axis = any(k.arg == "axis" for k in c_.keywords) or (norm(c_.func) == "np.squeeze" and len(c_.args) > 1) or (norm(c_.func) != "np.squeeze" and c_.args)
+            ctx.ob(R, fb.qname, "a squeeze of the decoded array names the (channel) axis it removes", has_axis,
+                   f"`{norm(c_)[:70]}` removes every axis of extent 1: a decoded image one pixel high or wide loses a spatial axis (a colour strip (1, W, 3) becomes a scalar (W, 3) "
+                   "image, a grey column (H, 1) is transposed by the following atleast_2d)", c_, evidence=True)
     sem = _bytes_cases(fb)
     if sem is not None and (sem[0] or not sem[1]):
         ctx.ob(R, fb.qname, "3 channels -> OpticalImage; rank 2 -> ScalarImage; single channel -> ScalarImage(squeezed); else raise", not sem[0], "; ".join(sem[0]), fb.node, evidence=True)
